@@ -1,0 +1,107 @@
+//go:build verif
+
+// Package verifpoint marks the boundaries between critical sections that the
+// verification harness may use to interleave goroutines deterministically.
+package verifpoint
+
+import (
+	"bytes"
+	"runtime"
+	"strconv"
+	"sync"
+)
+
+// Controller parks every registered goroutine at each Hit until it is released.
+type Controller struct {
+	mu      sync.Mutex
+	threads map[uint64]*thread
+}
+
+type thread struct {
+	name   string
+	parked chan string   // the point the goroutine is parked at
+	resume chan struct{} // closed/sent to let it go on
+}
+
+var (
+	ctrlMu sync.RWMutex
+	ctrl   *Controller
+)
+
+// Install sets (or, with nil, removes) the controller.
+func Install(c *Controller) {
+	ctrlMu.Lock()
+	ctrl = c
+	ctrlMu.Unlock()
+}
+
+func NewController() *Controller { return &Controller{threads: map[uint64]*thread{}} }
+
+func goid() uint64 {
+	var buf [64]byte
+	n := runtime.Stack(buf[:], false)
+	// "goroutine 123 [running]:..."
+	fields := bytes.Fields(buf[:n])
+	if len(fields) < 2 {
+		return 0
+	}
+	id, _ := strconv.ParseUint(string(fields[1]), 10, 64)
+	return id
+}
+
+// Go runs fn in a new goroutine registered under name and returns when the goroutine is
+// parked at its first Hit or has finished. parkedAt is "" when it finished.
+func (c *Controller) Go(name string, fn func()) (parkedAt string) {
+	t := &thread{name: name, parked: make(chan string), resume: make(chan struct{})}
+	started := make(chan struct{})
+	go func() {
+		id := goid()
+		c.mu.Lock()
+		c.threads[id] = t
+		c.mu.Unlock()
+		close(started)
+		fn()
+		c.mu.Lock()
+		delete(c.threads, id)
+		c.mu.Unlock()
+		t.parked <- ""
+	}()
+	<-started
+	return <-t.parked
+}
+
+// Release lets the goroutine registered under name run until its next Hit or its end.
+func (c *Controller) Release(name string) (parkedAt string) {
+	c.mu.Lock()
+	var t *thread
+	for _, x := range c.threads {
+		if x.name == name {
+			t = x
+		}
+	}
+	c.mu.Unlock()
+	if t == nil {
+		return ""
+	}
+	t.resume <- struct{}{}
+	return <-t.parked
+}
+
+// Hit parks the calling goroutine if it is registered with the installed controller.
+func Hit(point string) {
+	ctrlMu.RLock()
+	c := ctrl
+	ctrlMu.RUnlock()
+	if c == nil {
+		return
+	}
+	id := goid()
+	c.mu.Lock()
+	t := c.threads[id]
+	c.mu.Unlock()
+	if t == nil {
+		return
+	}
+	t.parked <- point
+	<-t.resume
+}
